@@ -47,21 +47,24 @@ struct platform_timer_internal {
 static void timer_thread_func(platform_timer_internal* internal) {
     auto next_tick = std::chrono::steady_clock::now() + internal->interval;
     
-    while (!internal->stop_requested.load()) {
-        // Wait until next tick or stop is requested
-        std::cv_status status;
+    for (;;) {
+        // Wait until next tick or stop is requested. The test of stop_requested and the wait
+        // are one step under the mutex, and platform_timer_stop() sets the flag under the
+        // same mutex: its notification cannot fall between the test and the wait (the thread
+        // would sleep until the next tick then, and stop would last as long). The predicate
+        // also takes care of spurious wake-ups, which would otherwise cost a tick.
+        bool stop;
         {
             std::unique_lock<std::mutex> lock(internal->mutex);
-            status = internal->cv.wait_until(lock, next_tick);
+            stop = internal->cv.wait_until(lock, next_tick,
+                                           [internal] { return internal->stop_requested.load(); });
         }
-        
-        // If we were signaled (not timeout), check if we should stop
-        if (internal->stop_requested.load()) {
+        if (stop) {
             break;
         }
         
         // Execute callback on timeout (without holding the lock)
-        if (status == std::cv_status::timeout && internal->active.load() && internal->callback) {
+        if (internal->active.load() && internal->callback) {
             internal->callback();
         }
         
@@ -142,13 +145,12 @@ extern "C" timer_error_t platform_timer_stop(platform_timer_t* timer) {
         return TIMER_OK;  // Already stopped
     }
     
-    // Signal thread to stop
-    internal->active.store(false);
-    internal->stop_requested.store(true);
-    
-    // Wake up thread if waiting
+    // Signal thread to stop, and wake it up if waiting. The flag is set under the mutex the
+    // thread holds from its test of the flag to its wait.
     {
         std::lock_guard<std::mutex> lock(internal->mutex);
+        internal->active.store(false);
+        internal->stop_requested.store(true);
         internal->cv.notify_all();
     }
     
